@@ -127,7 +127,8 @@ def extra():
                 "doc": {"content": "(A|B|C)*"}, "A": {"content": "p q*"}, "B": {"content": "q+"}, "C": {"content": "(p|q)*"},
                 "p": {}, "q": {}, "text": {},
             }}), "bridge-local"),
-            # a node that holds at most one text: a gap cut inside that text cannot be put back (see C04-around-text-gap)
+            # a node that holds at most one text: a gap cut inside that text could not be put back while insert_into tested
+            # can_replace(index, index, gap) (finding C04-around-text-gap); it validates the built (joined) content now
             SchemaInfo(Schema({"nodes": {
                 "doc": {"content": "(X|Z)*"}, "X": {"content": "text?"}, "Z": {"content": "text*"}, "text": {},
             }}), "optional-text-local"),
